@@ -123,6 +123,31 @@ impl Expr {
         }
         out
     }
+    /// candidate model of the SIZE-folding path: every atom is replaced by its hull (lowest..highest character), terms
+    /// are intersected as ranges, EXCEPT is ignored, the union of the terms is widened to one contiguous range
+    fn hull_model(&self, u: &CSet) -> CSet {
+        let hull = |s: &CSet| -> Option<(u32, u32)> { Some((*s.iter().next()?, *s.iter().next_back()?)) };
+        let mut lo_hi: Option<(u32, u32)> = None;
+        for t in &self.terms {
+            let mut cur: Option<(u32, u32)> = Some((0, u32::MAX));
+            for (a, _) in t {
+                cur = match (cur, hull(&a.set(u))) {
+                    (Some((l, h)), Some((l2, h2))) if l.max(l2) <= h.min(h2) => Some((l.max(l2), h.min(h2))),
+                    _ => None,
+                };
+            }
+            if let Some((l, h)) = cur {
+                lo_hi = Some(match lo_hi {
+                    None => (l, h),
+                    Some((a, b)) => (a.min(l), b.max(h)),
+                });
+            }
+        }
+        match lo_hi {
+            Some((l, h)) => u.iter().copied().filter(|c| l <= *c && *c <= h).collect(),
+            None => CSet::new(),
+        }
+    }
     fn only_unions(&self) -> bool {
         self.terms.iter().all(|t| t.len() == 1 && t[0].1.is_none())
     }
@@ -335,6 +360,10 @@ fn check_batch(cases: &[Case], rep: &mut Report) {
                 }
                 Some(items) => match denote(items, c.kind) {
                     Ok((got, outside)) => {
+                        if std::env::var("C15_DEBUG").is_ok() && c.size >= 3 && c.serial.is_none() {
+                            let hull = c.expr.hull_model(&u);
+                            eprintln!("DBG|{}|{}|{}|{}", c.expr.shape(), if got == expected { "exact" } else { "wrong" }, if got == hull { "hull" } else { "nohull" }, c.key());
+                        }
                         if got != expected {
                             let kind = if !expected.is_subset(&got) { "excludes-permitted-character" } else { "admits-forbidden-character" };
                             // outside the SIZE-folding path the known defect is exactly "flattened to a union": a different wrong set is a different finding
@@ -343,7 +372,18 @@ fn check_batch(cases: &[Case], rep: &mut Report) {
                                 known_model.extend(sx.flattened(&u));
                             }
                             let deviates = c.size < 3 && (c.serial.is_some() || !c.expr.only_unions()) && got != known_model;
-                            let kind = if deviates { format!("{kind}(not-the-known-union-flattening)") } else { kind.to_string() };
+                            // inside the SIZE-folding path a pure intersection (one term, no EXCEPT) is folded on hulls: every operand
+                            // is replaced by lowest..highest character and the ranges are intersected (measured on the pinned tree:
+                            // every such case yields exactly that set); any other wrong set is a different finding
+                            let pure_intersection = c.expr.terms.len() == 1 && c.expr.terms[0].len() >= 2 && c.expr.terms[0].iter().all(|(_, e)| e.is_none());
+                            let deviates_folded = c.size >= 3 && c.serial.is_none() && pure_intersection && got != c.expr.hull_model(&u);
+                            let kind = if deviates {
+                                format!("{kind}(not-the-known-union-flattening)")
+                            } else if deviates_folded {
+                                format!("{kind}(not-the-known-hull-folding)")
+                            } else {
+                                kind.to_string()
+                            };
                             found.push((kind, format!("from({items:?}) denotes {{{}}}, the constraint permits {{{}}}", show(&got), show(&expected))));
                         }
                         if !outside.is_empty() {
